@@ -120,7 +120,8 @@ def search(rep: C.Report, tier: str, broken):
                                       dict(info, momentum_flux_ahead=lhs, momentum_flux_behind=rhs_), finding_key="C03:front-momentum")
                 kSW = 4 * K / (vw ** 3 * alN * wN)
             # efficiency factor = kinetic-energy integral of the same flow
-            if tier == "thorough" or len([1 for k in rep.nontrivial if k[0] == name]) <= 4:
+            # always for the hybrids just below the Jouguet velocity (where the template model's vJ and the model's own differ), plus a few others
+            if tier == "thorough" or (0 < h.vJ - vw < 0.02) or len([1 for k in rep.nontrivial if k[0] == name]) <= 4:
                 try:
                     kap = float(h.efficiencyFactor(vw))
                 except Exception as ex:  # noqa: BLE001
